@@ -88,7 +88,33 @@ class H(explore.Harness):
         cache = CharacteristicCacheMemory()
         if self.mode == "cached":
             cache.async_create_or_update_map(IDS[0].upper(), 3, accessories(), None, 5)
+        self.nadv, self.last_adv, self.zc_cache, self.model_resolve = {}, {}, {}, {}
         self.ctrls = {}
+        if p.get("browser"):
+            import aiohomekit.zeroconf as zmod
+
+            h = self
+
+            class _CachedInfo:
+                """Stands in for AsyncServiceInfo(type, name): filled from the harness's zeroconf cache, then behaves like the real record."""
+
+                def __init__(self, type_, name):
+                    self.type, self.name, self._src = type_, name, None
+
+                def load_from_cache(self, zc, now=None):
+                    self._src = h.zc_cache.get(self.name)
+                    return self._src is not None
+
+                async def async_request(self, zc, timeout, *a, **k):
+                    return self.load_from_cache(zc)
+
+                def __getattr__(self, item):
+                    if item.startswith("_") or self.__dict__.get("_src") is None:
+                        raise AttributeError(item)
+                    return getattr(self._src, item)
+
+            self._zmod, self._orig_info = zmod, zmod.AsyncServiceInfo
+            zmod.AsyncServiceInfo = _CachedInfo
         if self.kind in ("ip", "agg"):
             from aiohomekit.controller.ip.controller import IpController
 
@@ -110,20 +136,95 @@ class H(explore.Harness):
             self.target = self.agg
         else:
             self.target = self.ctrls[self.kind]
+        if p.get("browser"):
+            class _AZC:
+                zeroconf = object()
+
+            for c in self.ctrls.values():
+                if hasattr(c, "_resolve_later"):
+                    c._async_zeroconf_instance = _AZC()
         if self.mode != "none":
             conn = {"ip": "IP", "coap": "CoAP", "ble": "BLE"}[self.kind]
             self.target.load_pairing("alias", pairing_data(IDS[0], conn))
         self.loop.run_until_idle()
 
     # ---- events
+    VARIANTS = [dict(sf=1, ci=5, ff=1), dict(sf=0, ci=5, ff=0), dict(sf=0, ci=8, ff=1)]  # same endpoint, c#, s#: only flags / category differ
+
+    def _props(self, dev_id, k):
+        v = self.VARIANTS[k % len(self.VARIANTS)] if self.p.get("variants") else dict(sf=0, ci=5, ff=1)
+        return {"id": dev_id.upper(), "c#": "3", "s#": "7", "sf": str(v["sf"]), "ci": str(v["ci"]), "md": "Model", "pv": "1.1", "ff": str(v["ff"])}, v
+
     def _adv(self, dev_id, valid, via):
         if via == "ble":
-            dev, adv = ble_adv(dev_id, data=None if valid else mfr_data(dev_id)[:11])
+            if valid and self.p.get("variants"):
+                k = self.nadv.get((dev_id, via), 0)
+                self.nadv[(dev_id, via)] = k + 1
+                v = self.VARIANTS[k % len(self.VARIANTS)]
+                dev, adv = ble_adv(dev_id, sf=v["sf"], cat=v["ci"])
+                self.last_adv[(dev_id, via)] = dict(sf=v["sf"], ci=v["ci"])
+            else:
+                dev, adv = ble_adv(dev_id, data=None if valid else mfr_data(dev_id)[:11])
             self.ctrls["ble"]._device_detected(dev, adv)
         else:
             hap = "_hap._tcp.local." if via == "ip" else "_hap._udp.local."
-            info = svc_info(hap, dev_id) if valid else svc_info(hap, dev_id, addresses=("169.254.1.1",))
+            if valid:
+                k = self.nadv.get((dev_id, via), 0)
+                self.nadv[(dev_id, via)] = k + 1
+                props, v = self._props(dev_id, k)
+                info = svc_info(hap, dev_id, props=props)
+                self.last_adv[(dev_id, via)] = v
+            else:
+                info = svc_info(hap, dev_id, addresses=("169.254.1.1",))
             self.ctrls[via]._async_handle_loaded_service_info(info)
+
+    def _check_descriptions(self):
+        """what the controller reports for an id is what was advertised LAST (flags and category included)"""
+        for (dev_id, via), v in self.last_adv.items():
+            d = self.ctrls[via].discoveries.get(dev_id)
+            if d is None:
+                self.viol.append((f"advertised-device-not-among-discoveries:{via}", {"id": dev_id}))
+                continue
+            desc = d.description
+            got = dict(sf=int(desc.status_flags), ci=int(desc.category))
+            if hasattr(desc, "feature_flags") and "ff" in v:
+                got["ff"] = int(desc.feature_flags)
+            if got != {k: v[k] for k in got}:
+                self.viol.append((f"discovery-does-not-report-the-last-advertisement:{via}", {"id": dev_id, "advertised": v, "reported": got}))
+
+    # browser path (mDNS): state changes arrive through the zeroconf browser callback, the record sits in the zeroconf cache
+    def _zc(self, kind, dev_id, via):
+        from zeroconf import ServiceStateChange
+
+        hap = "_hap._tcp.local." if via == "ip" else "_hap._udp.local."
+        name = f"Acc{IDS.index(dev_id)}.{hap}"
+        c = self.ctrls[via]
+        now = self.loop.time()
+        if kind == "zc-add":
+            props, v = self._props(dev_id, 0)
+            self.zc_cache[name] = svc_info(hap, dev_id, props=props, name=f"Acc{IDS.index(dev_id)}")
+            if name not in self.model_resolve:
+                self.model_resolve[name] = (now + 0.5, dev_id, via, v)  # debounce: resolved half a second after the first state change
+            c._handle_service(None, hap, name, ServiceStateChange.Added)
+        else:
+            # goodbye: the pending resolution (if any) is dropped; a later Added starts afresh
+            self.model_resolve.pop(name, None)
+            c._handle_service(None, hap, name, ServiceStateChange.Removed)
+
+    def _model_resolutions_due(self):
+        now = self.loop.time()
+        for name, (due, dev_id, via, v) in list(self.model_resolve.items()):
+            if due <= now + 1e-9:
+                del self.model_resolve[name]
+                if name in self.zc_cache:
+                    self.discovered.setdefault(dev_id, now)
+                    self.last_adv[(dev_id, via)] = v
+                    for w in self.waiters:
+                        if w["id"] == dev_id and not w["task"].done() and not w.get("cancel_requested") and "adv_at" not in w:
+                            if now >= w["t0"] + w["timeout"] - 1e-9:
+                                w["tie"] = True
+                            else:
+                                w["adv_at"] = now
 
     def _events(self):
         ev = []
@@ -137,6 +238,12 @@ class H(explore.Harness):
             for via in vias:
                 ev.append(f"adv:{i}:{via}")
                 ev.append(f"bad:{i}:{via}")
+        if self.p.get("browser"):
+            for i in range(self.p.get("ids", 1)):
+                for via in vias:
+                    if via != "ble":
+                        ev.append(f"zc-add:{i}:{via}")
+                        ev.append(f"zc-rm:{i}:{via}")
         for k, w in enumerate(self.waiters):
             if not w["task"].done() and not w.get("cancel_requested"):
                 ev.append(f"cancel:{k}")
@@ -151,7 +258,7 @@ class H(explore.Harness):
                 m += self._events()
         else:
             m += self._events()
-            if self.loop.next_timer() is not None and any(not w["task"].done() for w in self.waiters):
+            if self.loop.next_timer() is not None and (any(not w["task"].done() for w in self.waiters) or self.model_resolve):
                 m.append("timer")
         return m
 
@@ -186,13 +293,21 @@ class H(explore.Harness):
                             w["tie"] = True  # advertisement at the very instant of the timeout: either outcome is legitimate
                         else:
                             w["adv_at"] = now
+        elif k in ("zc-add", "zc-rm"):
+            try:
+                self._zc(k if k == "zc-add" else "zc-rm", IDS[int(parts[1])], parts[2])
+            except Exception as e:  # noqa: BLE001
+                self.viol.append((f"browser-callback-raises:{type(e).__name__}:{k}", {"err": str(e)[:200], "t": now}))
         elif k == "cancel":
             w = self.waiters[int(parts[1])]
             w["cancel_requested"] = True
             w["task"].cancel()
         elif k == "timer":
             self.loop.fire_next_timer()
+            self._model_resolutions_due()  # the model's pending resolutions that fall due at this instant are processed in this timer round
         self._check()
+        if not self.loop.has_ready():
+            self._check_descriptions()
 
     # ---- oracle
     def _check(self):
@@ -258,8 +373,10 @@ class H(explore.Harness):
                 break
             if not self.loop.fire_next_timer():
                 break
+            self._model_resolutions_due()
         self.loop.run_until_idle()
         self._check()
+        self._check_descriptions()
         out = self.violations()
         for k, w in enumerate(self.waiters):
             if not w["task"].done():
@@ -273,7 +390,9 @@ class H(explore.Harness):
         from vt import canon as _c
 
         generic = tuple(_c.canon(c, depth=2, skip=("_char_cache", "_loop", "_async_zeroconf_instance", "pairings", "aliases", "discoveries", "transports", "_tasks")) for c in self.ctrls.values())
-        return (ws, timers, tuple(sorted(self.discovered)), regs, len(self.loop._ready), self.preempt, generic, tuple(sorted(k for c in self.ctrls.values() for k in c.discoveries)))
+        model = (tuple(sorted((k, v % 3) for k, v in self.nadv.items())), tuple(sorted((k, tuple(sorted(v.items()))) for k, v in self.last_adv.items())), tuple(sorted(self.zc_cache)),
+                 tuple(sorted((n, round(d[0] - self.loop.time(), 6)) for n, d in self.model_resolve.items())))
+        return (model, ws, timers, tuple(sorted(self.discovered)), regs, len(self.loop._ready), self.preempt, generic, tuple(sorted(k for c in self.ctrls.values() for k in c.discoveries)))
 
     def outcome(self):
         def st(w):
@@ -290,6 +409,8 @@ class H(explore.Harness):
             self.loop.shutdown()
         finally:
             self._patch.__exit__(None, None, None)
+            if getattr(self, "_zmod", None) is not None:
+                self._zmod.AsyncServiceInfo = self._orig_info
 
 
 def case_explore(p):
@@ -460,6 +581,18 @@ def run(ctx):
         dict(kind="ble", pairing="nocache", waiters=1, ids=1, P=0),
         dict(kind="agg", pairing="none", waiters=2 if not quick else 1, ids=1, P=1 if not quick else 0),
     ]
+    configs += [
+        # re-advertisements that differ only in flags / category; what the controller reports must follow
+        dict(kind="ip", pairing="none", waiters=1, ids=1, P=0, variants=True),
+        dict(kind="coap", pairing="cached", waiters=1, ids=1, P=0, variants=True),
+        dict(kind="ble", pairing="none", waiters=1, ids=1, P=0, variants=True),
+        # state changes through the zeroconf browser callback (debounced resolution, goodbye inside the debounce window)
+        dict(kind="ip", pairing="none", waiters=1, ids=1, P=0, browser=True, timeouts=(5.0,)),
+        dict(kind="coap", pairing="none", waiters=1, ids=1, P=0, browser=True, timeouts=(1.0,)),
+    ]
+    if not quick:
+        configs += [dict(kind="ip", pairing="cached", waiters=2, ids=1, P=1, browser=True, variants=True, timeouts=(0.75, 5.0)), dict(kind="agg", pairing="none", waiters=1, ids=1, P=0, variants=True),
+                    dict(kind="ip", pairing="none", waiters=1, ids=2, P=0, browser=True)]
     if not quick:
         configs += [dict(kind="ip", pairing="none", waiters=3, ids=1, P=1, timeouts=(5.0, 10.0)), dict(kind="ble", pairing="none", waiters=3, ids=2, P=1), dict(kind="coap", pairing="nocache", waiters=1, ids=1, P=1),
                     dict(kind="ble", pairing="none", waiters=2, ids=1, P=2, timeouts=(5.0, 10.0)), dict(kind="ip", pairing="none", waiters=2, ids=1, P=2), dict(kind="agg", pairing="none", waiters=2, ids=1, P=2)]
